@@ -193,6 +193,7 @@ type vf23Case struct {
 
 	Pump      []int // schedule: kind*1000 + n*... see vf23Run
 	TailChunk int   // after the schedule: CRYPTO data is delivered in pieces of at most this many bytes (0 = whole)
+	TailDepth bool  // after the schedule: one event at a time, CRYPTO data handed to the peer before the next NextEvent call
 }
 
 var vf23AllGroups = []CurveID{X25519, CurveP256, CurveP384, CurveP521, X25519MLKEM768}
@@ -372,6 +373,7 @@ func vf23GenCase(rt *rapid.T) *vf23Case {
 	}
 	c.Pump = rapid.SliceOfN(rapid.IntRange(0, 3999), 0, 60).Draw(rt, "pump")
 	c.TailChunk = rapid.SampledFrom([]int{0, 0, 1, 5, 37, 300}).Draw(rt, "tail_chunk")
+	c.TailDepth = rapid.Bool().Draw(rt, "tail_depth_first")
 	return c
 }
 
@@ -948,7 +950,30 @@ func vf23Run(c *vf23Case, fast bool) *vf23Result {
 			res.livelock = true
 			break
 		}
-		progress := drain(res.cli, 64) + drain(res.srv, 64)
+		progress := 0
+		if c.TailDepth {
+			// depth-first transport: each event is acted on before the next one is asked for, so the event queue is
+			// not read to QUICNoEvent between a QUICWriteData event and the peer's answer
+			for _, e := range []*vf23End{res.cli, res.srv} {
+				progress += drain(e, 1)
+				if stopped() {
+					return res
+				}
+				for _, p := range []*vf23End{res.srv, res.cli} {
+					for len(p.inbox) > 0 && p.err == nil {
+						progress++
+						if !deliver(p, 9, 0) {
+							return res
+						}
+					}
+				}
+			}
+			if progress == 0 {
+				break
+			}
+			continue
+		}
+		progress = drain(res.cli, 64) + drain(res.srv, 64)
 		if stopped() {
 			return res
 		}
@@ -1142,7 +1167,7 @@ func vf23CheckClientWire(c *vf23Case, res *vf23Result, complete bool) (string, i
 
 func vf23Describe(c *vf23Case) map[string]any {
 	return map[string]any{"fault": c.Fault, "sub": c.FaultSub, "step": c.FaultStep, "groups": fmt.Sprint(c.Groups), "shares": fmt.Sprint(c.Shares),
-		"srv_curves": fmt.Sprint(c.SrvCurves), "alpn": c.ALPN, "srv_protos": c.SrvProtos, "tps": len(c.TPs), "extras": c.Extras, "pump_len": len(c.Pump), "tail_chunk": c.TailChunk, "key": c.KeyType}
+		"srv_curves": fmt.Sprint(c.SrvCurves), "alpn": c.ALPN, "srv_protos": c.SrvProtos, "tps": len(c.TPs), "extras": c.Extras, "pump_len": len(c.Pump), "tail_chunk": c.TailChunk, "tail_depth_first": c.TailDepth, "key": c.KeyType}
 }
 
 // vf23Judge evaluates one executed case. rerun re-executes the case (for the hang oracle).
@@ -1334,6 +1359,14 @@ func TestVerifC23Directed(t *testing.T) {
 		{"chunked", func(c *vf23Case) {
 			c.Pump = []int{0, 3005, 3007, 3005, 1000, 2005, 2011, 2005, 2013, 1000, 2005, 2005, 2005, 2005, 0, 3005, 3005}
 		}},
+		{"depth-first", func(c *vf23Case) { c.TailDepth = true }},
+		{"depth-first-hrr", func(c *vf23Case) { c.TailDepth = true; c.SrvCurves = []CurveID{CurveP256} }},
+		{"depth-first-hrr-ticket-chunked", func(c *vf23Case) {
+			c.TailDepth = true
+			c.SrvCurves = []CurveID{CurveP256}
+			c.SendTicket = true
+			c.TailChunk = 37
+		}},
 		{"ticket", func(c *vf23Case) { c.SendTicket = true; c.ClientCache = true }},
 		{"ticket-chunked", func(c *vf23Case) { c.SendTicket = true; c.TailChunk = 7 }},
 		{"bytewise", func(c *vf23Case) { c.TailChunk = 1; c.SrvCurves = []CurveID{CurveP256} }},
@@ -1377,6 +1410,7 @@ func TestVerifC23Pump(t *testing.T) {
 		exp := vf23Model(c)
 		st.Class("fault:" + c.Fault)
 		st.Class(fmt.Sprintf("tail-chunk:%d", c.TailChunk))
+		st.Class(fmt.Sprintf("tail-depth-first:%v", c.TailDepth))
 		if c.SendTicket {
 			st.Class("server-sends-ticket")
 		}
